@@ -105,7 +105,7 @@ def generate(rs, mode, tier, index):
     else:
         lbp = sig(rng.uniform(0.0, 0.15, n_layers))
         ubp = sig(rng.uniform(0.7, 1.0, n_layers))
-    n = rng.integers(4, 30)
+    n = rng.integers(max(4, n_layers + 2), 30)
     # targets: planted factorisation + noise, or arbitrary positive captures
     Kv = np.broadcast_to(np.asarray(K, float), (n_rec,))
     bv = np.broadcast_to(np.asarray(baseline, float), (n_rec,))
@@ -124,12 +124,19 @@ def generate(rs, mode, tier, index):
     sub = rng.choice([None, "fast", "frac"], p=[0.5, 0.2, 0.3])
     subsample = None if sub is None else ("fast" if sub == "fast" else
                                           float(sig(rng.uniform(0.5, 0.9), 3)))
+    if isinstance(subsample, float) and int(n * subsample) < n_layers + 1:
+        subsample = None          # more layers than sub-sampled rows: NMF cannot initialise
+    # how the caller states the number of layers: explicitly, through the mask's shape only,
+    # or not at all (documented default: n_receptors - 1 layers, every source allowed)
+    layers_arg = rng.choice(["explicit", "implicit"], p=[0.75, 0.25])
+    if layers_arg == "implicit" and mask is None and n_layers != n_rec - 1:
+        layers_arg = "explicit"
     W = sig(rng.uniform(0.5, 2.0, (n, n_rec))) if rng.coin(0.25) else None
     plan = {"check": ID, "run_seed": rs, "mode": mode,
             "sys": {"F": F, "S": S, "K": K, "baseline": baseline, "lb": lb, "ub": ub,
                     "n_rec": n_rec, "n_src": n_src, "Kkind": Kkind, "base_kind": base_kind},
             "B": B, "W": W, "target_kind": tk,
-            "n_layers": n_layers, "mask": mask, "mask_cls": mask_cls,
+            "n_layers": n_layers, "layers_arg": layers_arg, "mask": mask, "mask_cls": mask_cls,
             "equal_l1": rng.coin(0.55), "lbp": lbp, "ubp": ubp, "pb": pb,
             "subsample": subsample, "seed": rng.integers(0, 2 ** 31),
             "max_iter": rng.integers(2, 12),
@@ -152,8 +159,9 @@ def run_decomp(plan, est, seed=None):
     kw = {}
     if plan["solver"] != "SCS":
         kw["solver"] = plan["solver"]
+    n_layers_arg = plan["n_layers"] if plan.get("layers_arg", "explicit") == "explicit" else None
     return est.fit_decomposition(
-        plan["B"], n_layers=plan["n_layers"], mask=plan["mask"], lbp=plan["lbp"],
+        plan["B"], n_layers=n_layers_arg, mask=plan["mask"], lbp=plan["lbp"],
         ubp=plan["ubp"], max_iter=plan["max_iter"], seed=plan["seed"] if seed is None else seed,
         subsample=plan["subsample"], equal_l1norm_constraint=plan["equal_l1"], **kw)
 
@@ -224,10 +232,18 @@ def execute(plan):
             out = call(run_decomp, plan, est)
         steps += seam.count
         log.add("run1", out, [e.as_tuple() for e in seam.events])
+        if not out.ok and out.value not in ("SolverError", "RuntimeError"):
+            # a valid configuration must be answered: anything but a solver-type failure is the
+            # library's own doing
+            raise Violation(ID, "decomposition_raised",
+                            f"fit_decomposition raised {out.brief()} for a valid configuration "
+                            f"(layers stated {plan.get('layers_arg', 'explicit')}ly, mask "
+                            f"{plan['mask_cls']})", exc=out.value,
+                            layers_arg=plan.get("layers_arg", "explicit"),
+                            mask_given=plan["mask"] is not None)
         if not out.ok:
             bump("decomposition_failed:" + out.value)
-            # a failing fault-free call is not a C11 violation by itself unless it is caused by
-            # the returned state; record and stop
+            # a solver-type failure of a fault-free call is recorded, not judged
             return {"violation": None, "digest": log.digest(), "steps": steps,
                     "counters": counters, "cov": [], "nontrivial": False}
         X, P, Bp = (np.asarray(v) for v in out.value)
@@ -398,13 +414,21 @@ def candidates(plan):
             continue
         for start in range(0, n, size):
             keep = [i for i in range(n) if not (start <= i < start + size)]
-            if len(keep) < 2:
+            # stay inside the generator's envelope (NMF needs more rows than layers)
+            if len(keep) < max(4, plan["n_layers"] + 2):
+                continue
+            if isinstance(plan["subsample"], float) and \
+                    int(len(keep) * plan["subsample"]) < plan["n_layers"] + 1:
                 continue
             p = dict(plan)
             p["B"] = B[keep]
             if plan["W"] is not None:
                 p["W"] = plan["W"][keep]
             yield p
+    if plan.get("layers_arg") == "implicit":
+        p = dict(plan)
+        p["layers_arg"] = "explicit"
+        yield p
     for k, v in (("fault", None), ("W", None), ("subsample", None), ("mask", None),
                  ("equal_l1", False)):
         cur = plan.get(k)
@@ -426,8 +450,12 @@ def candidates(plan):
 
 
 def signature(plan, vio):
-    return {"class": vio["class"], "solver": plan["solver"],
-            "subsample": bool(plan["subsample"])}
+    s = {"class": vio["class"], "solver": plan["solver"], "subsample": bool(plan["subsample"])}
+    d = vio.get("detail", {})
+    for k in ("exc", "layers_arg", "mask_given"):
+        if k in d:
+            s[k] = d[k]
+    return s
 
 
 def sample_repr(plan):
